@@ -19,6 +19,9 @@
 //	                 x.Broadcast(), x.Close(..), receives, the chosen case of a select) and inside `defer close(ch)`:
 //	                 preemption points for the explorer (the current goroutine steps aside and the
 //	                 goroutine it has just made runnable runs first)
+//	yield-calls:A,B  vsel.Yield("file:line") after every call statement / single-call assignment whose
+//	                 function or method name is listed (points between plain statements, e.g. after
+//	                 os.OpenFile / Sync / Observer.Open); independent of `yield`
 //
 // A transform that finds nothing to do is an error (exit 2): the machinery must not
 // silently run uninstrumented code.
@@ -124,6 +127,24 @@ func rewriteFile(src, dst string, transforms []string) error {
 			y.run(f)
 			if y.count == 0 {
 				return fmt.Errorf("transform yield: no wake-up statement found")
+			}
+			addImport(f, "", shimRoot+"vsel")
+		case strings.HasPrefix(tr, "yield-calls:"):
+			// yield-calls:A,B,...  additionally a vsel.Yield("file:line") after every statement
+			// `x.A(...)` / `A(...)` / `v, err := x.A(...)` (single call on the right-hand side)
+			// whose function or method NAME is listed: preemption points between plain statements
+			// (e.g. after os.OpenFile, Sync, Observer.Open) that wake nobody but open a window
+			// another goroutine can observe. Independent of the `yield` transform.
+			names := map[string]bool{}
+			for _, n := range strings.Split(strings.TrimPrefix(tr, "yield-calls:"), ",") {
+				if n = strings.TrimSpace(n); n != "" {
+					names[n] = true
+				}
+			}
+			y := &yieldRewriter{fset: fset, file: filepath.Base(src), calls: names, callsOnly: true}
+			y.run(f)
+			if y.count == 0 {
+				return fmt.Errorf("transform %s: no call of a listed name found", tr)
 			}
 			addImport(f, "", shimRoot+"vsel")
 		case tr == "select":
@@ -377,6 +398,43 @@ type yieldRewriter struct {
 	file  string
 	count int
 	made  map[*ast.BlockStmt]bool // blocks this transform created
+	// yield-calls: names of functions / methods after whose call statement a point is put;
+	// callsOnly = put nothing else (the wake-up statements belong to the `yield` transform)
+	calls     map[string]bool
+	callsOnly bool
+}
+
+func (y *yieldRewriter) isListedCall(e ast.Expr) bool {
+	call, ok := e.(*ast.CallExpr)
+	if !ok || len(y.calls) == 0 {
+		return false
+	}
+	switch fn := call.Fun.(type) {
+	case *ast.Ident:
+		return y.calls[fn.Name]
+	case *ast.SelectorExpr:
+		return y.calls[fn.Sel.Name]
+	}
+	return false
+}
+
+// fixListCalls is fixList of the yield-calls transform.
+func (y *yieldRewriter) fixListCalls(list []ast.Stmt) []ast.Stmt {
+	var out []ast.Stmt
+	for _, st := range list {
+		out = append(out, st)
+		switch x := st.(type) {
+		case *ast.ExprStmt:
+			if y.isListedCall(x.X) {
+				out = append(out, y.yieldStmt(x.Pos()))
+			}
+		case *ast.AssignStmt:
+			if len(x.Rhs) == 1 && y.isListedCall(x.Rhs[0]) {
+				out = append(out, y.yieldStmt(x.Pos()))
+			}
+		}
+	}
+	return out
 }
 
 var wakeMethods = map[string]bool{"Unlock": true, "RUnlock": true, "Done": true, "Signal": true, "Broadcast": true, "Close": true}
@@ -444,6 +502,20 @@ func (y *yieldRewriter) fixList(list []ast.Stmt) []ast.Stmt {
 }
 
 func (y *yieldRewriter) run(f *ast.File) {
+	if y.callsOnly {
+		ast.Inspect(f, func(n ast.Node) bool {
+			switch x := n.(type) {
+			case *ast.BlockStmt:
+				x.List = y.fixListCalls(x.List)
+			case *ast.CaseClause:
+				x.Body = y.fixListCalls(x.Body)
+			case *ast.CommClause:
+				x.Body = y.fixListCalls(x.Body)
+			}
+			return true
+		})
+		return
+	}
 	ast.Inspect(f, func(n ast.Node) bool {
 		switch x := n.(type) {
 		case *ast.BlockStmt:
